@@ -55,6 +55,11 @@ Step(x) ==
                       THEN << <<"structural-call-panics-while-locked:" \o x.api, x.res.panic>>,
                               <<"structural-call-changes-nothing-while-locked:" \o x.api, x.unchanged>> >>
                       ELSE << <<"structural-call-succeeds-when-unlocked:" \o x.api, ~x.res.panic>> >>
+                            \o (IF "reg" \in DOMAIN x
+                                THEN \* Registry.tla: a rejected registration leaves no trace - the next type to receive that
+                                     \* ID is a relation exactly if it embeds the marker, and is usable as such
+                                     << <<"registration-after-rejected-one-is-clean", x.reg.isRel = x.reg.wantRel /\ x.reg.usable>> >>
+                                ELSE <<>>)
             IN /\ UNCHANGED <<s, open>>
                /\ viol' = viol \o Bad(cs)
                /\ nchk' = nchk + Len(cs) + 1
